@@ -1,7 +1,7 @@
 (* Listener: zeroconf._listener.AsyncListener - the oversize guard, the duplicate-packet guard and the
    deferral of truncated (TC) queries - as a labelled transition system. The decoded message is
    abstracted to the flags the listener looks at (they come from Model.WireDec in the composed node). *)
-From ZC Require Import Model.Base Model.Dict Gen.Const.
+From ZC Require Import Model.Base Model.Dict Gen.Const Gen.Sites.
 
 Record lmsg := {
   lm_data : bytes;
@@ -29,9 +29,11 @@ Definition opt_bytes_eqb (a : option bytes) (b : bytes) : bool :=
   match a with Some x => bytes_eqb x b | None => false end.
 
 (* the duplicate guard of _process_datagram_at_time *)
-Definition is_duplicate (s : lstate) (data : bytes) (now : Z) : bool :=
+Definition is_duplicate :=
+  Eval cbv beta iota delta [sop_apply site_listener_dup_window] in
+  fun (s : lstate) (data : bytes) (now : Z) =>
   opt_bytes_eqb (ls_data s) data
-  && (now - C_DUPLICATE_PACKET_SUPPRESSION_INTERVAL <? ls_last_time s)
+  && sop_apply site_listener_dup_window (now - C_DUPLICATE_PACKET_SUPPRESSION_INTERVAL) (ls_last_time s)
   && match ls_last_msg s with Some has_qu => negb has_qu | None => false end.
 
 Definition set_deferred (s : lstate) (d : list (text * list lmsg)) (t : list (text * Z)) : lstate :=
@@ -44,9 +46,11 @@ Definition respond_query (s : lstate) (msg : option lmsg) (addr : text) : lstate
   (set_deferred s (d_del text_eqb (ls_deferred s) addr) (d_del text_eqb (ls_timers s) addr), ORespond addr packets).
 
 (* datagram_received(data, (addr, port)) at time now; [m] is what DNSIncoming makes of data; tc_delay the draw in 400..500 *)
-Definition datagram (s : lstate) (m : lmsg) (addr : text) (now : Z) (has_entries : bool) (tc_delay : Z) : lstate * lout :=
+Definition datagram :=
+  Eval cbv beta iota delta [sop_apply site_listener_oversize] in
+  fun (s : lstate) (m : lmsg) (addr : text) (now : Z) (has_entries : bool) (tc_delay : Z) =>
   let data := lm_data m in
-  if Z.of_nat (length data) >? C_MAX_MSG_ABSOLUTE then (s, OOversize)
+  if sop_apply site_listener_oversize (Z.of_nat (length data)) C_MAX_MSG_ABSOLUTE then (s, OOversize)
   else if is_duplicate s data now then (s, ODuplicate)
   else
     let s1 := {| ls_data := Some data; ls_last_time := now; ls_last_msg := Some (lm_has_qu m);
